@@ -40,6 +40,8 @@ Context {T : Type} `{Num T}.
 Notation vec := (list T).
 Definition vzero (m : nat) : vec := vconst m nzero.
 Definition vmaxc (c : T) (x : vec) : vec := map (fun a => nmax a c) x.   (* ufuncs.maximum(c) *)
+(* np.abs(-v.norm() ** 2) < tol *)
+Definition normsq_lt (v : vec) (tol : T) : bool := nabs (nopp (normsq v)) <? tol.
 
 (* =========================================================== linearized ADMM *)
 Section ADMM.
@@ -266,7 +268,7 @@ Section SteepestDescent.
 Variables (grad proj : vec -> vec) (step tol : T).
 (* state: iterate and "the loop has returned"; the return test is
    np.abs(-grad_x.norm() ** 2) < tol *)
-Definition sd_stops (x : vec) : bool := nabs (nopp (normsq (grad x))) <? tol.
+Definition sd_stops (x : vec) : bool := normsq_lt (grad x) tol.
 Definition sd_step (s : vec * bool) : vec * bool :=
   let '(x, stopped) := s in
   if stopped then s
